@@ -1099,6 +1099,19 @@ fn gen_tpat(g: &TermGen, r: &mut Rng, stats: &mut Stats, pool: &[Q]) -> String {
 
 /// a triple pattern for a bulk operation through a view, mostly matching the triple `q`
 fn gen_vpat(g: &TermGen, r: &mut Rng, stats: &mut Stats, q: &Q) -> String {
+    if r.chance(1, 4) {
+        // exactly one position bound to a constant, the others open: with the view's graph name that is one of
+        // the two-constant index arms of the fast stores
+        let i = r.below(3);
+        stats.bump("vpat.one_constant");
+        let c = match r.below(3) {
+            0 => format!("O {}", [&q.s, &q.p, &q.o][i].render()),
+            1 => format!("S 1 {}", [&q.s, &q.p, &q.o][i].render()),
+            _ => format!("R 1 {}", [&q.s, &q.p, &q.o][i].render()),
+        };
+        let parts: Vec<String> = (0..3).map(|k| if k == i { c.clone() } else { "A".to_string() }).collect();
+        return parts.join(" ");
+    }
     let mut parts = vec![];
     for term in [&q.s, &q.p, &q.o] {
         parts.push(match r.below(20) {
@@ -1279,11 +1292,14 @@ pub fn generate(ctx: &mut GenCtx) {
                 let mut q = q;
                 let mut ppool: Vec<Q> = pool.clone();
                 if matches!(k, 10..=17 | 30..=33 | 37..=39) && !gpool.is_empty() && ctx.rng.chance(2, 3) {
-                    let f = ctx.rng.pick(&gpool).clone();
+                    // 1 in 4 at the FIRST quad inserted: its terms have the smallest indexes of an indexed store
+                    // (the edge of every range scan)
+                    let first = ctx.rng.chance(1, 4);
+                    let f = if first { gpool[0].clone() } else { ctx.rng.pick(&gpool).clone() };
                     vg = f.g.clone();
                     ppool = vec![f.clone()];
                     q = f;
-                    ctx.stats.bump("graph_view.aimed");
+                    ctx.stats.bump(if first { "graph_view.aimed.first_quad" } else { "graph_view.aimed" });
                 }
                 let aimed = ppool.len() == 1 && !pool.is_empty() && ppool[0] == q;
                 let pool_for_pat = ppool;
@@ -1307,6 +1323,7 @@ pub fn generate(ctx: &mut GenCtx) {
                         format!("v graph {} rem {}", gt, triple_text(&q))
                     }
                     13 => format!("v graph {} all", gt),
+                    14..=15 if aimed && ctx.rng.chance(1, 2) => format!("v graph {} qm {}", gt, gen_vpat(&g, &mut ctx.rng, &mut ctx.stats, &q)),
                     14..=15 => format!("v graph {} qm {}", gt, gen_tpat(&g, &mut ctx.rng, &mut ctx.stats, &pool_for_pat)),
                     16 => format!("v graph {} has {}", gt, triple_text(&q)),
                     17 => format!("v graph {} enum {}", gt, ctx.rng.pick(&VIEW_ENUMS)),
